@@ -207,6 +207,10 @@ def poison_sites(K):
         for name, path in table.items():
             sites.append({"kind": "image", "platform": platform, "name": name, "bad": "/" + path, "good": path})
     sites.append({"kind": "image-unref", "platform": "nowhere"})
+    for p in PLATFORMS + pools.ARCHES[:3]:
+        # ...also a platform that OTHER trees of the same process list, but this one does not
+        if p not in K["tree"]["platforms"] and p != K["tree"]["arch"] and p not in K["images"]:
+            sites.append({"kind": "image-unref", "platform": p})
     arch = K["tree"]["arch"]
     if arch in K["images"] and arch in K["tree"]["platforms"]:
         # the tree arch has an image table but is dropped from the platform list
